@@ -577,11 +577,23 @@ func (c *Chain) NextBlock(in BlockInput) *BlockResult {
 		spec[vs.Val] = vs
 	}
 	var votes []extVote
+	// when attestations were requested in the previous block the honest handlers have something to sign: one honest
+	// validator then uses the real ExtendVoteHandler (not the engine's imitation), so that what it produces is put
+	// before the real VerifyVoteExtensionHandler
+	probeReal := false
+	if h > 2 {
+		if reqs, err := c.App.BridgeKeeper.GetAttestationRequestsByHeight(c.Ctx(), uint64(h-1)); err == nil && reqs != nil && len(reqs.Requests) > 0 {
+			probeReal = true
+		}
+	}
 	for _, sv := range vals {
 		vs, ok := spec[sv.v.Idx]
 		mode := 0
 		if ok {
 			mode = vs.Mode
+		}
+		if mode == 0 && probeReal && c.HonestExt == nil {
+			mode, probeReal = 4, false
 		}
 		ev := extVote{val: sv.v, power: sv.power}
 		switch mode {
@@ -623,6 +635,10 @@ func (c *Chain) NextBlock(in BlockInput) *BlockResult {
 				return fail(hi)
 			}
 			ev.sent = ext
+			if mode == 4 && vr.Status != abci.ResponseVerifyVoteExtension_ACCEPT {
+				// an honest validator cannot vote: with every honest validator in the same position the chain stops
+				return fail(&HaltInfo{Phase: "VerifyVoteExtension", Err: "the vote extension produced by the honest ExtendVoteHandler is rejected by the VerifyVoteExtensionHandler on the same state"})
+			}
 			if vr.Status == abci.ResponseVerifyVoteExtension_ACCEPT {
 				ev.flag = cmtproto.BlockIDFlagCommit
 				ev.ext = ext
